@@ -702,6 +702,27 @@ fn dump_fn<'tcx>(cx: &mut Cx<'tcx>, ldid: LocalDefId) -> J {
         let _ = bcx.did;
     }
     f.push(("blocks", J::Arr(blocks)));
+    // promoted constants (e.g. `&Colour::Black`): dump their bodies so rules can see the value
+    let promoted = tcx.promoted_mir(did);
+    if !promoted.is_empty() {
+        let mut pj = Vec::new();
+        for pbody in promoted.iter() {
+            let mut pblocks = Vec::new();
+            let mut bcx = BodyCx { cx, body: pbody, did, tenv };
+            for (_bb, data) in pbody.basic_blocks.iter_enumerated() {
+                let mut stmts = Vec::new();
+                for s in data.statements.iter() {
+                    if let Some(j) = bcx.statement(s) {
+                        stmts.push(j);
+                    }
+                }
+                let term = bcx.terminator(data.terminator());
+                pblocks.push(J::obj(vec![("s", J::Arr(stmts)), ("t", term)]));
+            }
+            pj.push(J::obj(vec![("blocks", J::Arr(pblocks))]));
+        }
+        f.push(("promoted", J::Arr(pj)));
+    }
     J::obj(f)
 }
 
